@@ -4,7 +4,12 @@ N_THOROUGH = 12000
 MODEL_SHOW = "run"
 DISAGREE_IS_VIOLATION = True   # scripted observations are a function of the ops; concurrent blocks are compared through the acceptor only
 HARNESS_TIMEOUT = 600
-RULE = ("exhaustive: every script of length <= 3 (quick) / 5 (thorough) over {Post p0 ok, Post p0 panicking, Post p1 ok, Step, Stop}; "
+RULE = ("chain runners: every chain script below runs under waterfall.Sche, the Builder API, waterfall.Simple and waterfall.ExecAndWait "
+        "(exhaustive chains x 4 runners; random chains pick a runner each); registry: every GetSche/DelSche sequence of length <= 3 (quick) / 5 (thorough) "
+        "over two names on a fresh sche.Mgr, plus RunService name -> scheduler identity, IsStopped and name reuse after Stop in every RunService block; "
+        "one RunService block with slow closures on the virtual clock (heavy-frame accounting); registry race: 400 (quick) / 4000 (thorough) trials of "
+        "NewRunService(name).Start() against 8 goroutines doing GetScheMgr().GetSche(name).Post(f) behind a spin barrier (one scheduler per name, every f once). "
+        "exhaustive: every script of length <= 3 (quick) / 5 (thorough) over {Post p0 ok, Post p0 panicking, Post p1 ok, Step, Stop}; "
         "every chain of length <= 2 (quick) / 3 (thorough) over 7 task behaviours (sync ok, sync error, later ok, later error, never, "
         "ok-then-panic, callback twice) driven to completion next to a plain closure; burst: consumer gated, one goroutine posts 1199 closures "
         "(blocks at 999) on Sche.Handler and on RunService; near-capacity scripts (fill 996..1001, 2-4 posters running into the full queue, "
@@ -15,13 +20,18 @@ RULE = ("exhaustive: every script of length <= 3 (quick) / 5 (thorough) over {Po
         "scripts. Non-trivial = at least one closure, task or final ran; distinct = distinct op lists.")
 TRUSTED_BASE = [
     "Coq 8.16.1 kernel + vm_compute (case evaluation, Examples); no native_compute",
-    "hand translation utils/sche/sche.go (Post, doTask, Handler, Stop), utils/waterfall/waterfall_sche.go (Chain, Sche) -> C15/Model.v, measured by this correspondence run",
+    "hand translation utils/sche/sche.go (Post, doTask, Handler, Stop), sche_mgr.go (GetSche, DelSche), utils/waterfall/waterfall_sche.go (Chain, Sche; Builder = Sche), waterfall.go (Simple as a big-step evaluator with panics as values, ExecAndWait as a token machine over chanNext cap 1) -> C15/Model.v, measured by this correspondence run",
+    "ExecAndWait / Simple callers and blocked senders are observed as goroutine states 'chan receive' / 'chan send' (runtime.Stack); 'which goroutine' is measured: Simple = the goroutine that called Simple or the callback, ExecAndWait = always the calling goroutine",
     "Go harness harness/c15 (consumer = one receive from GetChanTask + DoTask per OStep; blocked posters detected as goroutine state 'chan send' via runtime.Stack), bin/check.py JSON->Coq term printer",
+    "modelled not verified: sync.Mutex makes Mgr.GetSche / DelSche atomic (the registry theorem is about sequential histories; atomicity is MEASURED by the registry-race block)",
     "modelled not verified: Go buffered channel (FIFO, send blocks when full, send on / close under a blocked sender panics, receive from a closed channel drains the buffer), select in Handler (may pick either ready case), recover",
     "MEASURED, not proved (partial): every closure / task / final ran on the consumer goroutine (goroutine id from runtime.Stack compared with the consumer's; RunService: with the first closure's and against all poster ids); real blocking of Post at 999 queued tasks; concurrent runs compared only through per-poster / per-chain projections",
     "chain scripts are tied to the chain machine by sharing run_item/take_pool and by this correspondence run, not by a refinement proof; scheduler scripts are proved to be runs of the transition system (C15_script_reachable)",
 ]
 ASSUMPTIONS = [
+    "waterfall.Simple / ExecAndWait are modelled WITH hooks/C15-fix-waterfall-empty.patch (empty task list -> final(false)); without it both panic (index out of range) and the corpus cases [OSimple 0 []] / [OWait 0 []] are reported",
+    "Simple and ExecAndWait have no recover: a task panic reaches the caller (Simple: after the nested rest of the chain already ran; ExecAndWait: final never runs). ExecAndWait with a task that calls back twice deadlocks on its own channel (C15_double_callback_wait); its curArgs/curErr are unsynchronised and only exercised sequentially",
+    "not reachable with the shipped configuration and therefore not driven: the selfBlockDefend branch of Sche.Post (7 statements), Mgr.hasSche (unexported, tests only); RunService.SetValue panics (vars map is never made) - outside this property",
     "Stop is called at most once (a second close panics in Go); closures do not Post to their own scheduler when its queue is full (self-deadlock stated in the comment of Sche.Post) - chain scripts stay below 899 queued items",
     "after Stop the consumer may leave with tasks still queued (Handler's select; RunService.Stop): those closures never run - 'exactly once' is claimed for schedulers that are not stopped, 'at most once' always",
     "a waterfall task that calls its callback twice is outside the property: the chain has no guard and final can run twice (C15_double_callback, C15_callbacks_conserved)",
